@@ -134,7 +134,7 @@ func newSoloPartition(r *rng, dim int, space pb.Space) *soloPartition {
 	return &soloPartition{ds: ds, node: n}
 }
 
-func (p *soloPartition) close() { p.node.db.Close() }
+func (p *soloPartition) close() {}
 
 // apply feeds one entry and captures the outcome delivered through the notificator (registered under a fresh id)
 func (p *soloPartition) apply(r *rng, ch stChange) stOutcome {
